@@ -95,7 +95,7 @@ def snap(o, stack=()):
 
 
 def snap_class(c):
-    return [(k, snap(v)) for k, v in vars(c).items() if k not in ("__dict__", "__weakref__", "__doc__", "_abc_impl")]
+    return [(k, snap(v)) for k, v in vars(c).items() if k not in ("__dict__", "__weakref__", "__doc__", "_abc_impl", "__slotnames__")]  # __slotnames__: copyreg's per-class memo, written by copy.deepcopy
 
 
 def rng_fingerprint():
@@ -136,6 +136,7 @@ def reach(root, stop=()):
     """ids -> objects of every MUTABLE object reachable from root (not entering objects in `stop`)."""
     seen = {}
     stop_ids = {id(s) for s in stop}
+    stop_ids.add(id(np.random.mtrand._rand))  # the global generator is an object of its own (STEPD's frozen scipy norm refers to it, never draws)
     todo = [root]
     while todo:
         o = todo.pop()
@@ -445,18 +446,18 @@ def coq_schedule(w: World, spec, schedule):
     ci = 0
     # replay the construction order of World.build: explicit configurations first, then instances
     for name, c in spec["cfgs"]:
-        items.append(f"NC {IDX[name]} {coq_cfg_pos(BY_NAME[name], c)}")
+        items.append(f"NC {IDX[name]}%nat {coq_cfg_pos(BY_NAME[name], c)}")
     for j, ins in enumerate(spec["insts"]):
         cbx = "cb0" if ins.get("cb") else "nocb"
         if ins["cfg"] is None:
-            items.append(f"ND {IDX[ins['det']]} {cbx}")
+            items.append(f"ND {IDX[ins['det']]}%nat {cbx}")
         else:
-            items.append(f"NW {IDX[ins['det']]} {w.cfg_loc[ins['cfg']]} {cbx}")
+            items.append(f"NW {IDX[ins['det']]}%nat {w.cfg_loc[ins['cfg']]}%nat {cbx}")
     pos = [0] * len(spec["insts"])
     for j in schedule:
         o = spec["insts"][j]["ops"][pos[j]]
         pos[j] += 1
-        items.append(f"RS {w.locs[j]}" if o == "R" else f"UP {w.locs[j]} {fl(o)}")
+        items.append(f"RS {w.locs[j]}%nat" if o == "R" else f"UP {w.locs[j]}%nat {fl(o)}")
     tape = "[" + "; ".join(fl_list(t) for t in w.tape) + "]"
     return "sys [" + "; ".join(items) + "] " + tape
 
